@@ -20,6 +20,12 @@ VERIF = os.path.dirname(os.path.dirname(os.path.abspath(__file__)))
 PY = sys.executable
 
 
+def out_dir(kind):
+    """evidence/ and replays/ live in /verif unless a sensitivity run redirects them (VERIF_OUT)."""
+    base = os.environ.get("VERIF_OUT") or VERIF
+    return os.path.join(base, kind)
+
+
 def scratch_top():
     top = os.environ.get("_VERIF_SCRATCH_TOP")
     if not top:
@@ -94,7 +100,7 @@ def minimise(engine, plan, res, cap=300):
             budget -= 1
             try:
                 journal(cand, replay=True)
-                r = engine.execute(cand, replay=True)
+                r = break_oracle(cand, engine.execute(cand, replay=True))
             except Exception:
                 continue
             if r.get("verdict") == "violation" and sig_tuple(r) == target:
@@ -151,7 +157,7 @@ def _worker_chunk(args):
             plan["property"] = prop
             try:
                 journal(plan)
-                res = _engine.execute(plan, replay=False)
+                res = break_oracle(plan, _engine.execute(plan, replay=False))
             except HarnessError as e:
                 out["harness_errors"].append({"index": i, "error": str(e)})
                 continue
@@ -191,6 +197,16 @@ def _worker_chunk(args):
         return out
     finally:
         faulthandler.cancel_dump_traceback_later()
+
+
+def break_oracle(plan, res):
+    """Replay self-test only (VERIF_BREAK_ORACLE=N): every run whose seed is divisible by N and that passed is turned into
+    an artificial violation, so that the minimise / write / fresh-replay path can be exercised on a tree that holds."""
+    n = int(os.environ.get("VERIF_BREAK_ORACLE", "0") or 0)
+    if n and res.get("verdict") == "ok" and int(plan.get("seed", 1)) % n == 0:
+        res = dict(res, verdict="violation", kind="artificial", site="selftest", shape=[str(plan.get("config"))],
+                   detail="artificial violation for the replay self-test", log_tail=[])
+    return res
 
 
 def journal(plan, replay=False):
@@ -244,7 +260,7 @@ def run_replay(engine_name, path):
     engine.setup_worker()
     with open(path) as f:
         rec = json.load(f)
-    res = engine.execute(rec["plan"], replay=True)
+    res = break_oracle(rec["plan"], engine.execute(rec["plan"], replay=True))
     return rec, res
 
 
@@ -403,14 +419,14 @@ def run_check(prop, engine_name, tier, level, rule, assumptions, components, sel
             s = raw_to_min[tuple(v["raw_sig"])]
             v = dict(v, inherited=True)
         groups.setdefault(s, []).append(v)
-    os.makedirs(os.path.join(VERIF, "replays", prop), exist_ok=True)
+    os.makedirs(os.path.join(out_dir("replays"), prop), exist_ok=True)
     for s, vs in sorted(groups.items(), key=lambda kv: str(kv[0])):
         rep = next((v for v in vs if not v.get("inherited")), vs[0])
         f = match_finding(findings, rep["res"])
         if f is not None:
             known_matched[f["what"]] = known_matched.get(f["what"], 0) + len(vs)
             continue
-        path = os.path.join(VERIF, "replays", prop, "%s-%d.json" % (sig_hash(list(s)), rep["seed"]))
+        path = os.path.join(out_dir("replays"), prop, "%s-%d.json" % (sig_hash(list(s)), rep["seed"]))
         rec = {"property": prop, "engine": engine_name, "config": rep["plan"].get("config"), "seed": rep["seed"],
                "plan": rep["plan"], "signature": sig_dict(s),
                "detail": rep["res"].get("detail"), "event_log_tail": rep["res"].get("log_tail"),
@@ -487,8 +503,8 @@ def run_check(prop, engine_name, tier, level, rule, assumptions, components, sel
         cov.update(extra(total) or {})
     ev = {"property_id": prop, "tier": tier, "seed": batch_seed, "level": level, "coverage": cov,
           "assumptions": assumptions, "wall_s": round(wall, 2), "violations": len(reported)}
-    os.makedirs(os.path.join(VERIF, "evidence"), exist_ok=True)
-    with open(os.path.join(VERIF, "evidence", prop + ".json"), "w") as fh:
+    os.makedirs(out_dir("evidence"), exist_ok=True)
+    with open(os.path.join(out_dir("evidence"), prop + ".json"), "w") as fh:
         json.dump(ev, fh, indent=1, default=str)
     print("%s %s: runs=%d ok=%d violations(unlisted)=%d known=%d distinct_nontrivial=%d wall=%.1fs exit=%d" % (
         prop, tier, total["n"], total["ok"], len(reported), sum(known_matched.values()), distinct_nontrivial, wall,
@@ -503,7 +519,7 @@ def _worker_died(prop, engine_name, e):
     import glob
 
     culprits = []
-    os.makedirs(os.path.join(VERIF, "replays", prop), exist_ok=True)
+    os.makedirs(os.path.join(out_dir("replays"), prop), exist_ok=True)
     for jp in sorted(glob.glob(os.path.join(scratch_top(), "w*", "current_plan.json"))):
         try:
             with open(jp) as f:
@@ -511,7 +527,7 @@ def _worker_died(prop, engine_name, e):
         except Exception:
             continue
         plan = j["plan"]
-        path = os.path.join(VERIF, "replays", prop, "crashed-%s.json" % sig_hash(plan))
+        path = os.path.join(out_dir("replays"), prop, "crashed-%s.json" % sig_hash(plan))
         rec = {"property": prop, "engine": engine_name, "config": plan.get("config"), "seed": plan.get("seed"),
                "plan": plan, "signature": {"property": prop, "kind": "process_crashed", "site": "?", "shape": []},
                "detail": "the interpreter died while executing this plan"}
